@@ -8,6 +8,8 @@ package providerapi
 // channel, the bids the engine saw, the pending-table size, stream liveness.
 
 import (
+	"bytes"
+	"reflect"
 	"context"
 	"encoding/hex"
 	"encoding/json"
@@ -133,6 +135,44 @@ type c12Pending struct {
 	bid    c12Bid
 }
 
+// the pending table is looked at through reflection (whatever its key type is) and under a lock
+// attempt that gives up: a service that keeps its mutex must not take the harness with it
+func c12TableHas(svc *Service, dg []byte) (present, locked bool) {
+	if !c12Lock(svc) {
+		return false, false
+	}
+	defer svc.bidsMu.Unlock()
+	for _, k := range reflect.ValueOf(svc.bidsInProcess).MapKeys() {
+		var kb []byte
+		switch k.Kind() {
+		case reflect.String:
+			kb = []byte(k.String())
+		case reflect.Array, reflect.Slice:
+			for i := 0; i < k.Len(); i++ {
+				kb = append(kb, byte(k.Index(i).Uint()))
+			}
+			if len(dg) < len(kb) { // fixed-width key: compare with the zero-extended / cropped digest
+				dg = append(make([]byte, len(kb)-len(dg)), dg...)
+			} else if len(dg) > len(kb) {
+				dg = dg[len(dg)-len(kb):]
+			}
+		}
+		if bytes.Equal(kb, dg) {
+			return true, true
+		}
+	}
+	return false, true
+}
+func c12Lock(svc *Service) bool {
+	for i := 0; i < 4000; i++ {
+		if svc.bidsMu.TryLock() {
+			return true
+		}
+		time.Sleep(250 * time.Microsecond)
+	}
+	return false
+}
+
 func c12Exec(t *testing.T, rng *vrng, plan int) (c12In, c12Obs) {
 	in := c12In{Tag: "random"}
 	obs := c12Obs{Statuses: map[string][]int{}, EngineSaw: []int{}, FieldsOK: true, Outs: []string{}}
@@ -184,9 +224,21 @@ func c12Exec(t *testing.T, rng *vrng, plan int) (c12In, c12Obs) {
 	hexs := func(s string) string { return hex.EncodeToString([]byte(s)) }
 	digests := []string{"d1", "d2", "d3", hex.EncodeToString(make([]byte, 32))}
 	goodHash := func() string { return hex.EncodeToString(rng.bytes(32)) }
+	stuck := false // the service no longer answers (its table lock is never released): stop the plan
+	waitDone := func(p *c12Pending) bool {
+		select {
+		case <-p.done:
+			return true
+		case <-time.After(2 * time.Second):
+			obs.Blocked, stuck = true, true
+			return false
+		}
+	}
 	handoff := func(id int, m *providerapiv1.Bid) {
 		p := bids[id]
-		<-p.done
+		if !waitDone(p) {
+			return
+		}
 		in.Steps = append(in.Steps, c12Step{T: "handoff", ID: id})
 		obs.Outs = append(obs.Outs, "ok")
 		obs.EngineSaw = append(obs.EngineSaw, id)
@@ -203,7 +255,7 @@ func c12Exec(t *testing.T, rng *vrng, plan int) (c12In, c12Obs) {
 			}
 		}
 	}
-	for step := 0; step < plan; step++ {
+	for step := 0; step < plan && !stuck; step++ {
 		switch r := rng.intn(100); {
 		case r < 35: // submit
 			b := c12Bid{TxHash: hexs(goodHash()), Amount: hexs("1000"), Block: int64(1000 + nextID), Start: 5, End: 9,
@@ -236,9 +288,10 @@ func c12Exec(t *testing.T, rng *vrng, plan int) (c12In, c12Obs) {
 			dg, _ := hex.DecodeString(b.Digest)
 			bctx, bcancel := context.WithCancel(ctx)
 			mode := rng.intn(3)
-			svc.bidsMu.Lock()
-			_, present := svc.bidsInProcess[string(dg)]
-			svc.bidsMu.Unlock()
+			present, lockedOK := c12TableHas(svc, dg)
+			if !lockedOK {
+				obs.Blocked, stuck = true, true
+			}
 			if mode == 0 && present {
 				mode = 1 + rng.intn(2)
 			}
@@ -275,10 +328,12 @@ func c12Exec(t *testing.T, rng *vrng, plan int) (c12In, c12Obs) {
 			switch mode {
 			case 0: // park: the digest is not in the table, so its appearance is the registration
 				ok := false
-				for k := 0; k < 20000 && !ok; k++ {
-					svc.bidsMu.Lock()
-					_, ok = svc.bidsInProcess[string(dg)]
-					svc.bidsMu.Unlock()
+				for k := 0; k < 20000 && !ok && !stuck; k++ {
+					var lockedOK bool
+					ok, lockedOK = c12TableHas(svc, dg)
+					if !lockedOK {
+						obs.Blocked, stuck = true, true
+					}
 					select {
 					case <-p.done: // returned instead of parking: a valid bid was refused
 						obs.Outs[len(obs.Outs)-1] = "rejected-valid"
@@ -307,7 +362,9 @@ func c12Exec(t *testing.T, rng *vrng, plan int) (c12In, c12Obs) {
 					}
 				}
 			case 2: // the caller's context is already done: register, then take the ctx.Done branch
-				<-p.done
+				if !waitDone(p) {
+					continue
+				}
 				in.Steps = append(in.Steps, c12Step{T: "abandon", ID: id})
 				obs.Outs = append(obs.Outs, "ok")
 			}
@@ -329,7 +386,9 @@ func c12Exec(t *testing.T, rng *vrng, plan int) (c12In, c12Obs) {
 			id := blocked[k]
 			blocked = append(blocked[:k], blocked[k+1:]...)
 			bids[id].cancel()
-			<-bids[id].done
+			if !waitDone(bids[id]) {
+				continue
+			}
 			in.Steps = append(in.Steps, c12Step{T: "abandon", ID: id})
 			obs.Outs = append(obs.Outs, "ok")
 		case r < 74: // a bid stream of the engine attaches and leaves (engine re-opens its bid stream, a
@@ -412,12 +471,20 @@ func c12Exec(t *testing.T, rng *vrng, plan int) (c12In, c12Obs) {
 	// quiescence: give up every parked caller (realised abandon steps), then look
 	for _, id := range blocked {
 		bids[id].cancel()
-		<-bids[id].done
+		if stuck || !waitDone(bids[id]) {
+			continue
+		}
 		in.Steps = append(in.Steps, c12Step{T: "abandon", ID: id})
 		obs.Outs = append(obs.Outs, "ok")
 	}
 	for id, p := range bids {
 		sts := []int{}
+		select {
+		case <-p.done:
+		default:
+			obs.Statuses[fmt.Sprint(id)] = sts // its ProcessBid never returned
+			continue
+		}
 		if p.ch != nil {
 			for {
 				select {
@@ -433,9 +500,13 @@ func c12Exec(t *testing.T, rng *vrng, plan int) (c12In, c12Obs) {
 		}
 		obs.Statuses[fmt.Sprint(id)] = sts
 	}
-	svc.bidsMu.Lock()
-	obs.Pending = len(svc.bidsInProcess)
-	svc.bidsMu.Unlock()
+	if c12Lock(svc) {
+		obs.Pending = reflect.ValueOf(svc.bidsInProcess).Len()
+		svc.bidsMu.Unlock()
+	} else {
+		obs.Blocked = true
+		obs.Pending = -1
+	}
 	cancelAll()
 	fin := make(chan struct{})
 	go func() { wg.Wait(); close(fin) }()
@@ -473,8 +544,12 @@ func TestVerifC12(t *testing.T) {
 	}
 	rng := newVrng(vseed(), 12)
 	n := vcount(120, 1500)
-	for i := 0; i < n; i++ {
+	blockedRuns := 0
+	for i := 0; i < n && blockedRuns < 4; i++ {
 		in, obs := c12Exec(t, rng, 4+rng.intn(vcount(20, 40)))
 		out.emit(in, obs)
+		if obs.Blocked { // a service that stops answering: a few such runs say it all
+			blockedRuns++
+		}
 	}
 }
